@@ -386,6 +386,19 @@ func runHarness(l *Loaded, spec *CheckSpec, h *HarnessSpec, tier string, extraPa
 	}
 	if ts.DeadlineS > 0 {
 		cfg.Deadline = time.Duration(ts.DeadlineS) * time.Second
+	} else if tier == "thorough" {
+		// every harness gets a wall-clock budget; a run that hits it is reported as truncated
+		// (what was explored held), never as a completed bound
+		cfg.Deadline = 900 * time.Second
+	} else {
+		cfg.Deadline = 600 * time.Second
+	}
+	if v := os.Getenv("GOSYM_DEADLINE_S"); v != "" {
+		var d int
+		fmt.Sscanf(v, "%d", &d)
+		if d > 0 {
+			cfg.Deadline = time.Duration(d) * time.Second
+		}
 	}
 	if ts.SolverTimeout > 0 {
 		cfg.solverTimeout = ts.SolverTimeout
